@@ -94,6 +94,14 @@ PROJECTS = {
     "multi_statement_body_calls_on_one_line": {
         "files": {"user.py": "def g(a, b=3):\n    c = a * b\n    return c + 1\n\n\nprint(g(2), g(2, 5), g(b=1, a=4))\n"},
         "target": ("user.py", "g")},
+    "same_call_text_in_two_scopes_one_clashing": {
+        "files": {"user.py": "def scale(a):\n    t = a * 2\n    return t + 1\n\n\ndef first():\n    r = scale(3)\n    return r\n\n\ndef second():\n    t = 100\n    r = scale(3)\n"
+                             "    return t + r\n\n\nprint(first(), second())\n"},
+        "target": ("user.py", "scale")},
+    "call_on_continuation_line_after_block": {
+        "files": {"user.py": "def area(w):\n    t = w * 2\n    return t + 1\n\n\ndef run(flag):\n    total = 0\n    if flag:\n        total = 10\n    total += max(1,\n        area(2))\n"
+                             "    return total\n\n\nprint(run(True), run(False))\n"},
+        "target": ("user.py", "area")},
     "argument_mentions_clashing_host_name": {
         "files": {"user.py": "def helper(x):\n    total = x + 100\n    return total\n\n\ntotal = 7\nz = helper(total)\nprint(z, total)\n"},
         "target": ("user.py", "helper")},
